@@ -786,6 +786,13 @@ def c08(hist, stats=None):
                 continue                     # tie / C04's business
             _abort_clauses(hist, sr, 'C08', sr.exp_t, None, 'expiry',
                            _exact(run), out)
+            if sr.spec['cls'] == 'Scheduler' and sr.spec['critical'] and \
+                    sr.over[2] == 'exc' and \
+                    not isinstance(sr.value, TimeoutError):
+                out.append(Violation(
+                    'C08', 'timeout-verdict-is-not-TimeoutError', _site(sr),
+                    "{} timed out (failed_time_out() is set) but raised {!r}"
+                    .format(sid, sr.value)))
             _kept_results(hist, sr, 'C08', out)
             if stats is not None:
                 stats['timeouts_fired'] = stats.get('timeouts_fired', 0) + 1
@@ -849,6 +856,13 @@ def c09(hist, stats=None):
         if stats is not None and forever_active:
             stats['forever_cancelled_at_end'] = \
                 stats.get('forever_cancelled_at_end', 0) + 1
+    # until then forever jobs obey the window like any other job
+    for v in c07(hist):
+        nid = v.msg.split(' when ')[1].split(' ')[0] if ' when ' in v.msg \
+            else None
+        if nid in hist.nodes and hist.nodes[nid].spec['forever']:
+            out.append(Violation('C09', 'forever-job-ignores-window', v.site,
+                                 v.msg))
     # a forever job that ends releases the jobs that require it: C12a/C01
     return out
 
